@@ -432,6 +432,11 @@ func modsKey(fn *ssa.Function, args, bindings []Val) string {
 // body with the actual arguments (so that writes to caller-known cells stay cell-precise). The result
 // is memoised per callee in terms of its parameters.
 func (e *Exec) modsOfCall(fn *ssa.Function, args, bindings []Val, st *State) modSet {
+	// canonical arguments: a reference argument given as a compound term gets a name, so that what the
+	// callee writes through it is recorded relative to the parameter whoever the caller is (the memo is
+	// shared by all callers; without this its precision depended on which caller came first)
+	args = e.canonRefArgs(fn, args, "marg")
+	bindings = e.canonRefArgs(fn, bindings, "mbind")
 	key := modsKey(fn, args, bindings)
 	if pm, ok := e.W.getParamMods(key); ok {
 		return e.instantiateMods(pm, args, bindings)
@@ -443,6 +448,9 @@ func (e *Exec) modsOfCall(fn *ssa.Function, args, bindings []Val, st *State) mod
 			ms.add(c, "")
 		}
 		e.recursive[fn] = true
+		if os.Getenv("GOVC_DEBUG") != "" {
+			fmt.Fprintf(os.Stderr, "DEBUG recursion through %s\n", fn.String())
+		}
 		e.busyHits++
 		return ms
 	}
@@ -455,7 +463,8 @@ func (e *Exec) modsOfCall(fn *ssa.Function, args, bindings []Val, st *State) mod
 		e.discovery++
 		dry := st.clone()
 		savedStack := e.inlineStack
-		e.inlineStack = append(e.inlineStack, fn)
+		// a fresh inlining budget: the (memoised) result must not depend on how deep the first caller was
+		e.inlineStack = []*ssa.Function{fn}
 		_, rr := e.runBody(fn, args, bindings, dry, "true", nil, 1)
 		e.inlineStack = savedStack
 		e.discovery--
@@ -470,6 +479,14 @@ func (e *Exec) modsOfCall(fn *ssa.Function, args, bindings []Val, st *State) mod
 			}
 		}
 		ms := e.refineMods(changed, sn.nlog, sn.nitems)
+		if dc := os.Getenv("GOVC_DEBUG_COMP"); dc != "" && strings.Contains(fn.String(), os.Getenv("GOVC_DEBUG_FN")) {
+			fmt.Fprintf(os.Stderr, "DEBUG modsOfCall %s comp %s changed=%v result=%v\n", fn.String(), dc, changed[dc], ms[dc])
+			for _, w := range e.wlog[sn.nlog:] {
+				if w.comp == dc {
+					fmt.Fprintf(os.Stderr, "   wlog ref=%q stable=%v fresh=%v\n", w.ref, e.stableRef(strings.SplitN(w.ref, "#", 2)[0], sn.nitems), e.freshDuring(strings.SplitN(w.ref, "#", 2)[0], sn.nitems))
+				}
+			}
+		}
 		e.wlog = e.wlog[:sn.nlog]
 		e.rollback(sn)
 		result = ms
@@ -509,6 +526,27 @@ func (e *Exec) modsOfCall(fn *ssa.Function, args, bindings []Val, st *State) mod
 		e.W.setParamMods(key, pm, e.compSort)
 	}
 	return result
+}
+
+func (e *Exec) canonRefArgs(fn *ssa.Function, vs []Val, tag string) []Val {
+	var out []Val
+	for i, a := range vs {
+		if len(a.Tup) == 0 && a.Addr == nil && a.Clo == nil && a.T != nil && e.reg.sortOf(a.T) == "Int" && isRefLike(a.T) && !isAtom(a.Term) && e.inQuant == 0 {
+			b := a
+			b.Term = e.define(fmt.Sprintf("%s%d_%s", tag, i, cleanSym(fn.Name())), "Int", a.Term)
+			if r, ok := e.boxOf[a.Term]; ok {
+				e.boxOf[b.Term] = r
+			}
+			if out == nil {
+				out = append([]Val{}, vs...)
+			}
+			out[i] = b
+		}
+	}
+	if out == nil {
+		return vs
+	}
+	return out
 }
 
 func (e *Exec) parametrise(comp string, ref Term, args, bindings []Val) paramMod {
@@ -673,20 +711,28 @@ func (e *Exec) callByContract(cc *callCtx, fn *ssa.Function, ctr *FuncContract, 
 			e.havocComp(cc.st, m)
 			// the write log records what the callee may touch from the caller's point of view: its targets only
 			e.wlog = e.wlog[:nlog]
+			napplied := 0
 			for _, t := range targets {
+				if !t.appliesTo(m) {
+					continue
+				}
+				napplied++
 				if t.member == nil {
 					e.wlog = append(e.wlog, writeRec{m, t.single})
 				} else {
 					e.wlog = append(e.wlog, writeRec{m, ""})
 				}
 			}
-			if len(targets) == 0 {
+			if napplied == 0 {
 				// only memory allocated during the call: logged against a pseudo-fresh reference
 				e.wlog = append(e.wlog, writeRec{m, "@fresh"})
 			}
 			nw := cc.st.comps[m]
 			cond := []Term{app("<=", "rq", apre)}
 			for _, t := range targets {
+				if !t.appliesTo(m) {
+					continue
+				}
 				cond = append(cond, Not(t.contains("rq")))
 			}
 			e.assumeKeyed(nw, fmt.Sprintf("(forall ((rq Int)) (! (=> %s (= (select %s rq) (select %s rq))) :pattern ((select %s rq))))", And(cond...), nw, old, nw), "frame of "+ctr.Name+": writes "+ctr.Writes.Text)
@@ -696,7 +742,8 @@ func (e *Exec) callByContract(cc *callCtx, fn *ssa.Function, ctr *FuncContract, 
 		// callee without a writes clause: its discovered write set must lie inside the caller's footprint
 		for _, m := range sortedKeys(ms) {
 			so := e.compSort[m]
-			if m == allocComp || !strings.HasPrefix(so, "(Array Int ") {
+			if m == allocComp || m == "LOCKED" || !strings.HasPrefix(so, "(Array Int ") {
+				// LOCKED is the lock-discipline ghost (held locks), not memory: balanced by the callee's own contract
 				continue
 			}
 			if ms[m][""] {
